@@ -31,7 +31,7 @@ def run_config(chk, tier, cfgname):
             c16.check_impl(chk, prog, im, cfgname)
     chk.floor("dynamic-root-collect-impls", n, 4)
     slot_strong(chk, prog)
-    typestate.apply(chk, "stash-adoption", "adopt", only=lambda r: r.pre["path"] == "DynamicRootSet::stash")
+    typestate.apply(chk, "stash-adoption", "adopt", only=lambda r: r.pre["path"] == "DynamicRootSet::stash", aspects=("safety",))
     slots.run_tables(chk, prog)
     slots.explore(chk, prog, depth=7 if tier == "quick" else 9)
     pairing(chk, prog)
